@@ -42,8 +42,6 @@ Definition coord (p : particle) (col : Z) : res Q :=
   | Some 0 => Ok x | Some 1 => Ok y | Some 2 => Ok z | _ => Oob
   end.
 
-Inductive kind := TSC | CIC.
-
 Definition tsc_scatter1 (box offset : Q) (have_W : bool) (p : particle) (G : arr3 Q) : res (arr3 Q) :=
   let gx := tsc_gx G in let gy := tsc_gy G in let gz := tsc_gz G in
   let threeD := tsc_threeD 3 gz in       (* density is a 3-D array (a 2-D ndarray does not type-check in numba) *)
